@@ -15,7 +15,7 @@ import time
 VERIF = os.path.dirname(os.path.dirname(os.path.abspath(__file__)))
 REPO = os.environ.get("VERIF_REPO", "/repo")
 SPEC = os.path.join(VERIF, "spec")
-BUILD = os.path.join(VERIF, "build")
+BUILD = os.environ.get("VERIF_BUILD_DIR") or os.path.join(VERIF, "build")     # (override: development runs in parallel)
 # evidence of runs against seeded changes (harness/mutants.py) must not overwrite the evidence of the real tree
 EVID = os.environ.get("VERIF_EVIDENCE_DIR") or os.path.join(VERIF, "evidence")
 REPLAYS = os.path.join(VERIF, "replays")
